@@ -404,6 +404,7 @@ def main():
               "non-trivial = model output is an archive_error, or a successful save/load/round trip of a value with >= 3 tokens; "
               "distinct = distinct case lines" % len(TYPES))
     c.trusted += [
+        "translators of the imported models (translate/c06.py, c07.py, c11.py are re-run; Props imports Cppcms.C06.Lemmas, Cppcms.C07.Props, Cppcms.C11.Props)",
         "translator translate/c19.py + translate/cexpr.py: conditions, read offsets/lengths and ptr_ updates of eof/next_chunk_size/read_chunk/"
         "read_chunk_as_string, header width of write_chunk, POD-vector count/length expressions, shape checks of the container and smart-pointer macros",
         "hand-written in Model.lean: statement order inside the archive functions, little-endian/sizeof(size_t)=8 (x86-64), the archive_traits "
@@ -420,7 +421,12 @@ def main():
     ]
 
     c.translate("c19.py")
-    proved = c.prove(["Cppcms.C19.Props"], OBLIGATIONS, exe="c19_model")
+    # Props imports the models (and the cited theorems) of C06, C07 and C11: their generated parts must describe the
+    # tree being checked as well, and nobody else may rebuild those modules while they are being read
+    for dep in ("c06.py", "c07.py", "c11.py"):
+        c.translate(dep)
+    with Lock("lake-C06"), Lock("lake-C07"), Lock("lake-C11"):
+        proved = c.prove(["Cppcms.C19.Props"], OBLIGATIONS, exe="c19_model")
     if thorough and proved:
         c.leanchecker(["Cppcms.C19.Props"])
     model = c.model_exe()
